@@ -124,7 +124,9 @@ func spawnChild(fl *hx.Flags, i int, from string) []childLine {
 	if err != nil {
 		// a crash of the child (fatal error, panic in a goroutine of the package) is an observation
 		l := childLine{Case: tlive.Scenario{Kind: "live", Family: "child-crash"}, Term: "mkLC 10 10 [] [] 0", Counts: map[string]int{"child-crash": 1}}
-		if n := len(lines); n > 0 {
+		if cur := tlive.ReadCurrent(dir); cur != nil {
+			l.Case = *cur // the scenario that was running
+		} else if n := len(lines); n > 0 {
 			l.Case = lines[n-1].Case // the scenario that ran last is the best replay candidate
 		}
 		l.Direct = append(l.Direct, directV{What: "driver process crashed (panic outside Call/Cancel or fatal error)", Detail: fmt.Sprintf("%v: %s", err, errb.String())})
